@@ -347,6 +347,9 @@ retry_from_root:
                     goto retry_from_root; // NOLINT
                 }
                 // mt root is deleted, so scan end
+                // report the empty root like iscan_findfirst does for an empty tree: the rest of the
+                // range was read from it, so a later insert must be detectable
+                if (bnv_cb(root->get_version_ptr(), rv)) { return status::WARN_ABORTED_BY_USER; }
                 return status::OK_SCAN_END;
             }
             // L1+
